@@ -68,6 +68,8 @@ pub static SCENARIOS: &[Scenario] = &[
         exec: scn_c17::exec,
     },
     #[cfg(feature = "opt")]
+    Scenario { name: "c17h", property: "C17", gen: scn_hist::gen_c04, exec: scn_hist::exec_c17h },
+    #[cfg(feature = "opt")]
     Scenario { name: "c18long", property: "C18", gen: scn_c18::gen_long, exec: scn_c18::exec },
     #[cfg(feature = "opt")]
     Scenario {
